@@ -279,8 +279,13 @@ func (f *chainFam) Apply(st M) M {
 		t := f.files[f.rng.Intn(len(f.files))]
 		sizes := []int64{0, -1, 1, 3, 1 << 62, math.MinInt64, math.MaxInt64, math.MaxInt64, math.MaxInt64 - 7, math.MaxInt64/2 + 1, math.MaxInt64 / 3}
 		msg := &stypes.MsgPostFile{Creator: a.S(), Merkle: t.root, FileSize: sizes[f.rng.Intn(len(sizes))], MaxProofs: int64([]int{1, 1, 1, 2, 3, 0, -1}[f.rng.Intn(7)]), Note: "{}"}
-		if f.rng.Intn(4) == 0 {
+		switch f.rng.Intn(6) {
+		case 0:
 			msg.Expires = f.c.H + int64([]int{14400, 3 * 14400, 1, -5}[f.rng.Intn(4)])
+		case 1: // one-time payment of a small file with an extreme expiry (centuries of blocks: time.Duration saturates at ~292 years)
+			msg.FileSize = []int64{1, 3, 1000}[f.rng.Intn(3)]
+			msg.MaxProofs = int64(1 + f.rng.Intn(3))
+			msg.Expires = []int64{1 << 31, 1 << 40, 5_256_000_000, 1_576_800_000, 1_534_000_000, 1 << 62, math.MaxInt64}[f.rng.Intn(7)]
 		}
 		return f.deliver(msg)
 	case "form": // attestation / report forms on real files, requested and signed by real provers
